@@ -474,7 +474,9 @@ func TestC02(t *testing.T) {
 	rapidCheck(t, func(rt *rapid.T) {
 		if rapid.IntRange(0, 2).Draw(rt, "part_cut") == 0 {
 			// (4) the stream ends in front of a drawn packet, possibly inside a transaction
-			c := &CutCase{E: E2ECase{H: gen.History(rt, o), Pacing: rapid.IntRange(0, 1).Draw(rt, "pacing")}, Kind: rapid.SampledFrom([]string{"fin", "eof"}).Draw(rt, "cut_kind")}
+			fo := o
+			fo.Scale = false
+			c := &CutCase{E: E2ECase{H: gen.History(rt, fo), Pacing: rapid.IntRange(0, 1).Draw(rt, "pacing")}, Kind: rapid.SampledFrom([]string{"fin", "eof"}).Draw(rt, "cut_kind")}
 			l, start, _, err := c.E.layout()
 			if err != nil {
 				rt.Skip(err.Error())
@@ -504,7 +506,9 @@ func TestC02(t *testing.T) {
 		case 0:
 			// (5) a unit is refused by the handler (or the stream is cut) and the SAME streamer tries again:
 			// every change must then be delivered in exactly one accepted transaction, not twice inside one
-			c := &FaultCase{H: gen.History(rt, o)}
+			fo := o
+			fo.Scale = false
+			c := &FaultCase{H: gen.History(rt, fo)}
 			e := E2ECase{H: c.H}
 			l, start, su, err := e.layout()
 			if err != nil {
@@ -543,6 +547,9 @@ func TestC02(t *testing.T) {
 			return
 		}
 		c := &E2ECase{H: gen.History(rt, o), Pacing: rapid.IntRange(0, 1).Draw(rt, "pacing")}
+		if l, err := c.H.Lay(); err == nil && len(l.Events) > 300 {
+			c.Pacing = PaceFarAhead
+		}
 		cls := []string{"random-history"}
 		if c.Pacing == PaceLockStep {
 			cls = append(cls, "random/lockstep")
